@@ -95,16 +95,14 @@ def analyze(s, reencode=True, stereo=True):
                     out.append(('C04:tetrahedral', 'atom %d (%s): handedness %r in input, %r in output %r (selfies %r)'
                                 % (i, a.token, p1, p2, smi, sel)))
                     break
-        # every '/' '\' mark is found again on the same bond with the same direction
-        for (u, v), mk in m_in.bond_marks.items():
-            if m_in.order(u, v) != 1:
-                continue
-            d1 = m_in.directed_mark(u, v)
-            d2 = m_out.directed_mark(u, v) if (min(u, v), max(u, v)) in m_out.bonds else None
-            if d1 != d2 and not getattr(m_in, 'mark_conflicts', None):
-                out.append(('C04:double-bond', 'bond %d-%d: mark %r in input, %r in output %r (selfies %r)'
-                            % (u, v, d1, d2, smi, sel)))
-                break
+        # every '/' '\\' mark is found again on the same bond, at the same end, with the same character
+        def marks(m):
+            return {k: v for k, v in m.bond_marks.items() if m.order(k[0], k[1]) == 1}
+        a, b = marks(m_in), marks(m_out)
+        if a != b:
+            diff = sorted(set(a.items()) ^ set(b.items()))
+            out.append(('C04:double-bond', 'stereo marks differ at %r: input %r output %r (selfies %r)'
+                        % (diff[:4], s, smi, sel)))
     if reencode:
         try:
             sel2 = sf.encoder(smi)
